@@ -12,6 +12,9 @@ Tie: T — Generated/RouterLockShape.lean (every access to a Router field with t
 Round 10: Props/C17Vars (the variables are those of the leftmost-first decomposition; the judge requires it: gen_ambiguous),
      Props/C17Access (GetRoute/GetRoutes/GetRouteRegexp/SetErrorHandler after random histories: getroutes, getroute, seterr, servefail),
      Props/C17Nested (one message object dispatched repeatedly, routers mounted in routers: inner, mount, msgnew, msgpath, msgserve).
+Round 11: Props/C17Wire (whole option lists on the wire), Props/C17Long (dispatch after LONG histories: `churn <n> <prefix> <h>` = n
+     modifications of the route table in one line; 2^8, 2^16, 2^16 +- 1, 2^17 ... modifications between two dispatches of one path:
+     gen_long_systematic, gen_long_run).
 """
 import glob
 import json
@@ -21,7 +24,8 @@ import subprocess
 
 from . import common
 
-MODULES = ["CoapVerif.Props.C17", "CoapVerif.Props.C17Vars", "CoapVerif.Props.C17Access", "CoapVerif.Props.C17Nested", "CoapVerif.Props.C17Wire"]
+MODULES = ["CoapVerif.Props.C17", "CoapVerif.Props.C17Vars", "CoapVerif.Props.C17Access", "CoapVerif.Props.C17Nested", "CoapVerif.Props.C17Wire",
+           "CoapVerif.Props.C17Long"]
 GENERATED = ["RouterLockShape.lean", "OptionDefs.lean"]
 
 
@@ -263,6 +267,11 @@ def gen_case(rng):
             continue
         if k < 0.12:
             lines.append(rng.choice(["default d4", "default nil", "defaultf nil", "defaultf d5"]))
+            continue
+        if k < 0.135:
+            # resources that come and go: a run of modifications (an odd run leaves its last pattern registered)
+            lines.append("churn %d %s c%d" % (rng.choice([1, 2, 3, 4, 5, 16, 255, 256, 257]),
+                                               hx(rng.choice(["/tmp/", "/", "/" + segs[0] + "/", "/" + "/".join(segs)])), rng.randrange(3)))
             continue
         if k < 0.14:
             lines.append("mw m%d" % rng.randrange(4))
@@ -699,6 +708,114 @@ def gen_nested(rng):
     return lines, {"meta_literal": False, "invalid": 0, "templates": [m[0] for m in mounts] + plains + inner}
 
 
+# ---------------------------------------------------------------- long runs: many modifications of the route table between two dispatches
+
+POW16 = 1 << 16
+LONG_TOTALS = [255, 256, 257, POW16 - 1, POW16, POW16 + 1, 2 * POW16]
+LONG_TOTALS_THOROUGH = LONG_TOTALS + [3 * POW16, 1 << 18, (1 << 20) - 1, 1 << 20]
+
+
+def long_scenarios(total):
+    """histories in which exactly `total` modifications of the route table (Handle / HandleRemove calls that succeed) lie between two
+    dispatches of the same path, one of them concerning a route that matches it: -> {name: lines}"""
+    d, p7 = hx("/dev/42"), hx("/dev/7")
+    rid, rab, rnum, rname = hx("/dev/{id}"), hx("/{a}/{b}"), hx("/dev/{id:[0-9]+}"), hx("/dev/{nm}")
+    tmp = hx("/tmp/")
+    out = {}
+    out["removed"] = ["reset", "default d1", "route %s h1" % rid, "serve %s" % d, "unroute %s" % rid,
+                      "churn %d %s c" % (total - 1, tmp), "serve %s" % d, "serve %s" % p7]
+    out["removed-builtin-default"] = ["reset", "mw m1", "routef %s h1" % rid, "served %s" % d, "unroute %s" % rid,
+                                      "churn %d %s c" % (total - 1, tmp), "served %s" % d]
+    out["longer-added"] = ["reset", "route %s h1" % rab, "serve %s" % d, "route %s h2" % rnum,
+                           "churn %d %s c" % (total - 1, tmp), "serve %s" % d, "serve %s" % hx("/dev/x")]
+    out["replaced"] = ["reset", "route %s h1" % rid, "serve %s" % d, "route %s h2" % rid,
+                       "churn %d %s c" % (total - 1, tmp), "serve %s" % d]
+    if total >= 2:
+        out["removed-and-registered-under-another-name"] = ["reset", "route %s h1" % rid, "serve %s" % d, "unroute %s" % rid, "route %s h2" % rname,
+                                                            "churn %d %s c" % (total - 2, tmp), "serve %s" % d]
+        out["run-split-by-an-unmatched-dispatch"] = ["reset", "default d1", "route %s h1" % rid, "serve %s" % d, "unroute %s" % rid,
+                                                     "churn %d %s c" % ((total - 1) // 2, tmp), "serve %s" % hx("/nothing/here"),
+                                                     "churn %d %s c" % (total - 1 - (total - 1) // 2, hx("/t2/")), "serve %s" % d]
+    out["run-over-patterns-under-the-same-prefix"] = ["reset", "default d1", "route %s h1" % rid, "serve %s" % p7, "unroute %s" % rid,
+                                                      "churn %d %s c" % (total - 1, hx("/dev/")), "serve %s" % p7, "serve %s" % hx("/dev/%d" % ((total - 1) // 2))]
+    out["registered-after-a-default-dispatch"] = ["reset", "default d1", "serve %s" % d, "route %s h1" % rid,
+                                                  "churn %d %s c" % (total - 1, tmp), "serve %s" % d]
+    out["match-directly"] = ["reset", "route %s h1" % rab, "match %s" % d, "route %s h2" % rnum,
+                             "churn %d %s c" % (total - 1, tmp), "match %s" % d, "unroute %s" % rnum, "unroute %s" % rab,
+                             "churn %d %s c" % (max(total - 2, 0), tmp), "match %s" % d]
+    return out
+
+
+def gen_long_systematic(thorough):
+    cases = []
+    meta = {"meta_literal": False, "invalid": 0, "templates": ["/dev/{id}", "/{a}/{b}", "/dev/{id:[0-9]+}"]}
+    main = ("removed", "longer-added", "replaced")
+    for total in (LONG_TOTALS_THOROUGH if thorough else LONG_TOTALS):
+        for name, lines in long_scenarios(total).items():
+            if thorough and total > 2 * POW16 and name not in main:
+                continue
+            if not thorough and name not in main and total not in (256, POW16):
+                continue
+            cases.append((lines, dict(meta, long=name)))
+    # every power of two (a modification counter of any width wraps at one of them) and its neighbours
+    for k in range(1, 16):
+        for total in ((1 << k) - 1, 1 << k, (1 << k) + 1):
+            if total >= 1:
+                cases.append((long_scenarios(total)["removed"], dict(meta, long="removed")))
+                if thorough:
+                    cases.append((long_scenarios(total)["longer-added"], dict(meta, long="longer-added")))
+    return cases
+
+
+def gen_long_run(rng):
+    """random route set around a target path; the path is dispatched, then `total` modifications follow - the first one or two concern
+    a route that matches the path (removed, replaced, a new template for the path), the rest is a run over unrelated patterns - and the
+    path is dispatched again.  `total` is mostly a multiple of 2^16 or next to one."""
+    k = rng.random()
+    total = POW16 if k < 0.5 else 2 * POW16 if k < 0.62 else rng.choice([POW16 - 1, POW16 + 1, 256, 512, 255, 257, 4096]) if k < 0.85 else rng.randrange(1, 3000)
+    segs = [rng.choice(PLAIN) for _ in range(rng.choice([1, 2, 2, 3]))]
+    path = "/" + "/".join(segs)
+    lines = ["reset"]
+    for _ in range(rng.choice([0, 0, 1, 2])):
+        lines.append("mw m%d" % rng.randrange(4))
+    if rng.random() < 0.6:
+        lines.append(rng.choice(["default d1", "defaultf d2", "default nil"]))
+    templates = []
+    for i in range(rng.choice([1, 2, 3, 4])):
+        t = template_for(rng, segs)
+        templates.append(t)
+        lines.append("%s %s h%d" % (rng.choice(["route", "route", "routef"]), hx(t), i))
+    other = "/" + "/".join(mutate_path(rng, segs))
+    serve = rng.choice(["serve", "serve", "serve", "served"])
+    lines.append("%s %s" % (serve, hx(path)))
+    if rng.random() < 0.3:
+        lines += ["serve %s" % hx(other), "%s %s" % (serve, hx(path))]
+    m = 0
+    for j in range(rng.choice([1, 1, 2])):
+        a = rng.random()
+        if a < 0.45 and templates:
+            t = rng.choice(templates)
+            templates.remove(t)
+            lines.append("unroute %s" % hx(t))
+        elif a < 0.7 and templates:
+            lines.append("route %s g%d" % (hx(rng.choice(templates)), j))
+        else:
+            t = template_for(rng, segs)
+            templates.append(t)
+            lines.append("route %s n%d" % (hx(t), j))
+        m += 1
+    prefix = rng.choice(["/tmp/", "/r", "/" + segs[0] + "/", "/é/", "/tmp.", "/"])
+    rest = max(total - m, 0)
+    if rng.random() < 0.3 and rest >= 2:
+        cut = rng.randrange(1, rest)
+        lines += ["churn %d %s c" % (cut, hx(prefix)), "serve %s" % hx(rng.choice(["/no/such/thing", other])), "churn %d %s c" % (rest - cut, hx("/t2/"))]
+    else:
+        lines.append("churn %d %s c" % (rest, hx(prefix)))
+    lines.append("%s %s" % (serve, hx(path)))
+    lines.append("serve %s" % hx(other))
+    return lines, {"meta_literal": False, "invalid": 0, "templates": templates, "long": "random"}
+
+
 def load_corpus():
     out = []
     for p in sorted(glob.glob(os.path.join(common.VERIF, "corpus", "C17", "*.json"))):
@@ -794,6 +911,8 @@ def show_line(l):
             " ".join("%d:%s%s" % (n, v.hex() if len(v) <= 8 else "<%d bytes>" % len(v), "(out of range)" if skipped_by_rfc(n, v) else "") for n, v in opts), f[4])
     if f[0] == "wire":
         return "wire %s code=%s path=%r bytes=%s" % (f[1], f[2], "(no Uri-Path)" if f[3] == "none" else "/" + "/".join(unhx(x) for x in f[3].split(",")), f[4])
+    if f[0] == "churn" and len(f) == 4:
+        return "churn %s %r %s (= %s modifications of the route table: Handle/HandleRemove of %s0, %s0, %s1, ...)" % (f[1], unhx(f[2]), f[3], f[1], unhx(f[2]), unhx(f[2]), unhx(f[2]))
     if len(f) > 1 and f[0] in ("route", "routef", "unroute", "serve", "served", "match") and f[1] != "none":
         return f[0] + " " + repr(unhx(f[1])) + " " + " ".join(f[2:])
     return l
@@ -812,6 +931,10 @@ def explore(ctx, art):
     n_nested = 10000 if thorough else 800
     for _ in range(n_nested):
         direct.append(gen_nested(rng))
+    direct += gen_long_systematic(thorough)
+    n_long = 120 if thorough else 10
+    for _ in range(n_long):
+        direct.append(gen_long_run(rng))
     n_random = 100000 if thorough else 6000
     for _ in range(n_random):
         direct.append(gen_case(rng))
@@ -830,7 +953,9 @@ def explore(ctx, art):
                        "length is inside or OUTSIDE the range of their definition (skipped by the decoder; the path is made of the options whose deltas add up to 11), optionally under the token of an observe registration / "
                        "discovery that failed just before - into a real udp/tcp connection, tcp server or udp server on a loopback socket "
                        "whose handler was installed by options.WithMux) after a "
-                       "sequence of route/routef/unroute/default/mw operations on a fresh real mux.Router. Non-trivial = at least two "
+                       "sequence of route/routef/unroute/default/mw operations on a fresh real mux.Router - also LONG ones: churn = a run of n Handle/HandleRemove "
+                       "calls in one line, with 2^k - 1, 2^k, 2^k + 1 (k up to 16), 2^17 and more modifications between two dispatches of one path "
+                       "(histogram dispatch-after-a-run-of-...). Non-trivial = at least two "
                        "registered patterns match the path, or a registered template has a regex metacharacter in a literal; distinct by "
                        "(operation prefix, request). The implementation's answer must be among the model's outcomes over all map "
                        "iteration orders and is judged by Spec/Router (derivative matcher, independent template cutter) and Spec/RouterPrefer "
@@ -859,11 +984,24 @@ def evaluate(ctx, art, cases, n_random):
         return
     bad_cases = {}
     mism = 0
+    since = 0          # modifications of the route table since the previous dispatch of the case
     for i, (l, o) in enumerate(zip(lines, impl)):
         ci = owner[i]
         op = l.split()[0]
         ctx.count("op-" + op)
+        if op == "reset":
+            since = 0
+        elif op == "churn" and o.startswith("ok "):
+            since += int(o.split()[1])
+            ctx.count("modifications-in-runs", int(o.split()[1]))
+        elif op in ("route", "routef", "unroute") and o == "ok":
+            since += 1
         if op in DISPATCH_OPS:
+            if since >= 255:
+                ctx.count("dispatch-after-a-run-of-%s-modifications" % (
+                    "2^16*k" if since % POW16 == 0 else "2^16*k+-1" if since % POW16 in (1, POW16 - 1) else
+                    "2^8*k" if since % 256 == 0 else "other-255+"))
+            since = 0
             ctx.cov["evaluations"] += 1
             ctx.count("out-" + o.split()[0])
             if op == "wire":
